@@ -12,7 +12,7 @@ TB = ("Lean 4.33 kernel; axioms propext/Classical.choice/Quot.sound only (audite
 
 CHECKS = {
     "C01": dict(
-        text=("Theorems (Props/C01.lean, 20) over a transcription of ovni_payload_add/ovni_ev_add/ovni_ev_add_jumbo/"
+        text=("Theorems (Props/C01.lean, 23) over a transcription of ovni_payload_add/ovni_ev_add/ovni_ev_add_jumbo/"
               "add_flush_events/ovni_flush/mark emitters with the capacity as a parameter (> 24, so every alignment of "
               "the 2 MiB boundary): payload sizes 0,2..16 round-trip through the size nibble (payload_roundtrip); every "
               "sequence of library records decodes back event by event, tiling the bytes (decode_encode, decode_stream, "
@@ -28,7 +28,7 @@ CHECKS = {
         technique="Lean 4 invariant proofs over a state-machine model of the staging buffer + byte-exact differential run against libovni",
         design="DESIGN.md §5 C01"),
     "C02": dict(
-        text=("Theorems (Props/C02.lean, 20): for every capacity > 24 and every protocol-conformant program (clocks read "
+        text=("Theorems (Props/C02.lean + Props/C02Emu.lean, 25): for every capacity > 24 and every protocol-conformant program (clocks read "
               "from the library clock right before each emit, zeroed event structs, no forged OF codes) that returns, the "
               "file has non-decreasing clocks, properly paired non-nested flush markers, well-formed records, and decodes "
               "exactly (conformant_stream_valid, via the invariant step_valid/run_valid); the statement is proved false "
@@ -362,7 +362,7 @@ CHECKS = {
         technique="Lean 4 guard/merge theorems over transcriptions of the mark API and mark.c + differential runs of libovni and ovniemu",
         design="DESIGN.md §5 C17"),
     "C18": dict(
-        text=("Theorems (Props/C18.lean) over a transcription of ev_spec_compile / ev_spec_print / model_evspec_init and of the "
+        text=("Theorems (Props/C18.lean, 9) over a transcription of ev_spec_compile / ev_spec_print / model_evspec_init and of the "
               "category switches of the eight event.c files, with the event lists, tables AND the category/value switches REGENERATED "
               "from /repo (clang AST, Generated/Handlers.lean): for every "
               "model and every code (all Nat triples, not only printable) the handler recognises it IFF it is listed or is an "
